@@ -44,6 +44,13 @@ func legalXMLString(rng *rand.Rand, maxParts int) string {
 	for i := 0; i < n; i++ {
 		switch rng.Intn(4) {
 		case 0:
+			if d := repoDictionary(); len(d) > 0 && rng.Intn(6) == 0 {
+				// a string constant of the library itself (placeholder, sentinel, URI): legal XML text in practice
+				if t := d[rng.Intn(len(d))]; isLegalXML(t) {
+					b.WriteString(t)
+					break
+				}
+			}
 			b.WriteString(xmlSpecial[rng.Intn(len(xmlSpecial))])
 		case 1:
 			b.WriteString(randHex(rng, 1+rng.Intn(5)))
